@@ -61,6 +61,10 @@ func WithTexts(t *rapid.T, s *Spec) {
 		}
 	}
 	s.Prologue = prologuePool[rapid.IntRange(0, len(prologuePool)-1).Draw(t, "prologue")]
+	s.Prologue2 = ""
+	if rapid.IntRange(0, 3).Draw(t, "twoblocks") == 0 {
+		s.Prologue2 = rapid.SampledFrom([]string{"var second int", "\nvar second int\n", " x ", "\n// second block %% { }\n"}).Draw(t, "prologue2")
+	}
 	s.Union = unionPool[rapid.IntRange(0, len(unionPool)-1).Draw(t, "union")]
 	s.Epilogue = epiloguePool[rapid.IntRange(0, len(epiloguePool)-1).Draw(t, "epilogue")]
 }
